@@ -167,6 +167,9 @@ func TestProp(t *testing.T) {
 		c := Case{EType: et, Usage: kgen.Usage(t), Dir: rapid.SampledFrom([]string{"lib2ref", "ref2lib", "lib2ref", "ref2lib", "fresh"}).Draw(t, "dir")}
 		c.Key = hex.EncodeToString(kgen.Key(t, et, "key"))
 		n := kgen.BoundaryLen(t, 130)
+		if rapid.IntRange(0, 14).Draw(t, "longer") == 0 {
+			n = rapid.SampledFrom([]int{200, 257, 600, 1500, 4099, 70000}).Draw(t, "longlen") // beyond the quantifier: ticket-sized and larger
+		}
 		c.Plain = hex.EncodeToString(kgen.Bytes(t, "plain", n))
 		c.Conf = hex.EncodeToString(kgen.Bytes(t, "conf", ref.ConfounderLen(et)))
 		count(r, c)
